@@ -251,3 +251,27 @@ Proof.
   - intros -> H. simpl in H. rewrite !andb_true_iff in H. destruct H as [_ [HE HR]].
     apply Nat.ltb_lt in HE. apply Nat.ltb_lt in HR. tauto.
 Qed.
+
+(* ---- refusing components do not starve the other paths ------------------------------------------------------ *)
+Lemma failure_isolated_l c g s i F :
+  wf_config c -> build c = Ok g -> In (Recv s i) (g_nodes g) ->
+  (forall x, In x (deliver_f g F (Recv s i)) <->
+     exists p, cpath c s i p /\ observe p = Some x /\ forall n, In n p -> memb F n = false) /\
+  (consume_error g F (Recv s i) = true <->
+     exists p n, In p (deliver_walks g (Recv s i)) /\ In n p /\ In n F).
+Proof.
+  intros W B Hin. destruct (route_exact_l c g s i W B Hin) as [_ [M _]]. split.
+  - intros x. unfold deliver_f. rewrite In_omap. split.
+    + intros [p [Hp E]]. apply filter_In in Hp. destruct Hp as [Hp NF]. exists p.
+      split; [apply M; split; [exact Hp | apply observe_some_iff; eauto]|]. split; [exact E|].
+      intros n Hn. rewrite negb_true_iff in NF. destruct (memb F n) eqn:Em; [|reflexivity].
+      assert (T : existsb (memb F) p = true) by (apply existsb_exists; exists n; tauto). congruence.
+    + intros [p [Hc [E NF]]]. exists p. split; [|exact E]. apply filter_In. split; [apply M in Hc; tauto|].
+      rewrite negb_true_iff. destruct (existsb (memb F) p) eqn:Ex; [|reflexivity].
+      apply existsb_exists in Ex. destruct Ex as [n [Hn Hm]]. rewrite (NF n Hn) in Hm. discriminate.
+  - unfold consume_error. rewrite existsb_exists. split.
+    + intros [p [Hp Ex]]. apply existsb_exists in Ex. destruct Ex as [n [Hn Hm]]. exists p, n.
+      split; [exact Hp|]. split; [exact Hn|]. unfold memb in Hm. apply (existsb_eqb_In node_eqb node_eqb_spec) in Hm. exact Hm.
+    + intros [p [n [Hp [Hn HF]]]]. exists p. split; [exact Hp|]. apply existsb_exists. exists n. split; [exact Hn|].
+      unfold memb. apply (existsb_eqb_In node_eqb node_eqb_spec). exact HF.
+Qed.
